@@ -146,6 +146,13 @@ func (g *G) ymd() (int, int, int) {
 // and its abstract form. zeroOK: the zero 'no date' may be produced.
 func (g *G) date(zeroOK bool) (types.Date, M) {
 	if zeroOK && len(g.dates) == 0 && g.r.Intn(8) == 0 {
+		// the zero 'no date' in its different guises (same instant, another Location)
+		switch g.r.Intn(4) {
+		case 0:
+			return types.Date(time.Time{}.UTC()), M{"t": "zero"}
+		case 1:
+			return types.Date(time.Time{}.In(locs[g.r.Intn(len(locs))])), M{"t": "zero"}
+		}
 		return types.Date{}, M{"t": "zero"}
 	}
 	y, m, d := g.ymd()
